@@ -35,13 +35,17 @@ PROPS = {
                 "verify k Y' (k•Y) iff Y'=Y (k≠0), any other point fails; for EVERY nonce the proof of GenerateDLEQ(a,B',a•B') is accepted by "
                 "VerifyDLEQ under a•g, and with the wallet's r by VerifyProofDLEQ (re-blinding); special soundness: if C' ≠ a•B' (e.g. signed with "
                 "another key a'≠a, B'≠0) then every commitment (R1,R2) admits at most one challenge e with a response, so an accepted forgery must "
-                "have hit that one value with the hash; tamper evidence as explicit reductions: if a transcript and the transcript with exactly one "
+                "have hit that one value with the hash; witness extraction (two openings of one commitment with e≠e' yield w with A=w•g and C'=w•B'); "
+                "nut12.VerifyProofsDLEQ modelled with its key lookup by amount and optional DLEQ (honest lists pass; amount that is not a key, or r removed, fails; "
+                "a STRIPPED DLEQ passes — NUT-12 makes it optional); tamper evidence as explicit reductions: if a transcript and the transcript with exactly one "
                 "of s, A, B', C' (blind-signature DLEQ) or s, r, secret(Y), amount(A), C (proof DLEQ) changed are both accepted with the same e, then the "
                 "two 4-tuples the verifier itself hashes are DISTINCT and COLLIDE under hashE — except in the exactly stated degenerate cases "
                 "(B'/secret: s = 0; r: A = 0 ∧ s = 0), which are proved to be real (the verifier then ignores the field).",
         "note": "NOT proved: (1) that a change of e ALONE is rejected — algebra gives only the fixed-point characterisation dleq_tamper_e_iff "
                 "(accept ↔ e = hashE(sG−eA, sB'−eC', A, C')) and that the changed e makes the verifier hash a different input; 'always rejected' is a "
-                "random-oracle statement and is covered by the differential/monitor stream only; (2) infeasibility of finding hash collisions or "
+                "random-oracle statement about SHA-256 and is covered by the differential/monitor stream only (what IS proved is its counting form, "
+                "dleq_tamper_e_random_oracle: among all functions hashE that accept the original transcript exactly a 1/n fraction accepts the one with e replaced "
+                "by a fixed e' — a statement about a uniformly random function, not about SHA-256); (2) infeasibility of finding hash collisions or "
                 "unique-challenge hits (computational assumption on SHA-256, appears in no theorem); (3) corner not modelled: VerifyDLEQ compares "
                 "the REDUCED scalar e with the RAW 32-byte SHA-256 output, so an honest proof whose hash is ≥ n (probability ≈ 2^-128) is rejected "
                 "by the Go code; the model maps the hash into ZMod n. Encoding-level malleability of the e/s strings (upper-case hex, bytes after "
